@@ -356,3 +356,45 @@ Proof.
   { eapply (levels_respect_gen _ a b _ _ _ _ 0 i' j'); [|exact L|exact Hb|exact Hi'|exact Hj']. intros z _ []. }
   eapply (restrict_mono fields a b Fa Fb ls 0 0); eauto.
 Qed.
+
+(* ---------- no ordered field is dropped: both ends of a declared pair get a group ---------- *)
+Lemma deps_of_key_items d x y : In y (deps_of d x) -> In x (items d).
+Proof.
+  unfold deps_of, items. intros H. apply nodup_In. apply in_flat_map.
+  destruct (find (fun p => Nat.eqb (fst p) x) d) as [p|] eqn:F; [|destruct H].
+  apply find_some in F. destruct F as [F E]. apply Nat.eqb_eq in E. exists p. split; auto. simpl; auto.
+Qed.
+
+Lemma restrict_sup fields ls x : In x fields -> In x (concat ls) -> In x (concat (restrict fields ls)).
+Proof.
+  intros Fx. induction ls as [|lv r IH]; [intros []|].
+  simpl (concat (lv :: r)). intros H. rewrite restrict_cons.
+  assert (Hf : In x lv -> In x (filter (fun f => mem f lv) fields)).
+  { intros Hl. apply filter_In. split; auto. apply mem_In; auto. }
+  apply in_app_or in H.
+  destruct (filter (fun f => mem f lv) fields) as [|n l] eqn:G.
+  - destruct H as [H|H]; [destruct (Hf H)|auto].
+  - change (In x ((n :: l) ++ concat (restrict fields r))).
+    apply in_or_app. destruct H as [H|H]; [left; apply (Hf H)|right; auto].
+Qed.
+
+Lemma rand_order_covers d fields gs a b :
+  rand_order d fields = Some gs -> In b (deps_of d a) -> In a fields ->
+  In a (concat gs) /\ (In b fields -> In b (concat gs)).
+Proof.
+  intros H Hb Fa. apply rand_order_inv in H. destruct H as [ls [L ->]].
+  rewrite <- (deps_of_filter fields d a Fa) in Hb.
+  split; [|intros Fb]; apply restrict_sup; auto; eapply levels_sup; try exact L.
+  - eapply deps_of_key_items; eauto.
+  - eapply deps_of_items; eauto.
+Qed.
+
+(* the unconditional form of rand_order_respects: a declared pair inside one rand set is always separated *)
+Lemma rand_order_separates d fields gs a b :
+  NoDup fields -> rand_order d fields = Some gs -> In b (deps_of d a) -> In a fields -> In b fields ->
+  exists i j, group_index gs a 0 = Some i /\ group_index gs b 0 = Some j /\ j < i.
+Proof.
+  intros NF H Hb Fa Fb. destruct (rand_order_covers _ _ _ _ _ H Hb Fa) as [Ca Cb]. specialize (Cb Fb).
+  destruct (gi_some gs a 0 Ca) as [i Hi]. destruct (gi_some gs b 0 Cb) as [j Hj].
+  exists i, j. repeat split; auto. eapply rand_order_respects; eauto.
+Qed.
